@@ -100,6 +100,15 @@ def analyse(prog):
                         ok = True
                     if not ok:
                         bad.append(f"line {n.lineno}: module-level {mutable_globals[n.id][0]} '{n.id}' used other than read-only")
+            # a memoising decorator is module-level state as well: refuted when the cached function hands out a mutable object
+            # (its results are then shared by reference between calls); a cache of immutable results is transparent
+            for dec in getattr(fn, "decorator_list", []):
+                dtxt = ast.unparse(dec.func if isinstance(dec, ast.Call) else dec).split(".")[-1]
+                if dtxt in ("lru_cache", "cache", "cached_property", "memoize", "memoized"):
+                    rtxt = ast.unparse(fn.returns) if fn.returns is not None else ""
+                    if any(w in rtxt for w in ("Dict", "List", "Set", "dict", "list", "set", "bytearray", "Mapping", "Sequence")) or \
+                            any(prog.class_by_name(mod, w) is not None for w in rtxt.replace("[", " ").replace("]", " ").replace(",", " ").replace("t.", "").split()):
+                        bad.append(f"line {dec.lineno}: @{dtxt} on a function returning a mutable / object value ({rtxt}): results shared between calls")
             ob("F1-no-module-state", q, not bad, "; ".join(bad))
             # F2
             bad = []
